@@ -310,7 +310,14 @@ static void apply_op(State& st, uint64_t acc, uint64_t a, uint64_t b, size_t opi
       }
       case A_PREAD_B: {
         uint64_t len = clamp_len(off, size, n);
-        std::unique_ptr<char[]> dst(new char[len]);
+        // the caller of pread(void*, size) owns `size` bytes: the destination is that large (what the call leaves in the part it does
+        // not fill is its own business); a size no caller can own is not passed to the void* forms
+        if (size > (1u << 20)) {
+          ctx().exclude("clamping read into void* with a size no caller can own (> 1 MiB): not called");
+          break;
+        }
+        std::unique_ptr<char[]> dst(new char[size ? size : 1]);
+        memset(dst.get(), 0xA5, size ? size : 1);
         size_t got = 0;
         Outcome o = attempt([&] { got = r.pread(off, dst.get(), size); }, name);
         VCHECK(o == RETURNED, cat("clamping-throws:", name), name, " threw out_of_range", ctxt());
@@ -426,7 +433,13 @@ static void apply_op(State& st, uint64_t acc, uint64_t a, uint64_t b, size_t opi
         if (acc == A_READ_S) {
           o = attempt([&] { s = r.read(size, adv); }, name);
         } else {
-          std::unique_ptr<char[]> dst(new char[len]);
+          if (size > (1u << 20)) {
+            ctx().exclude("clamping read into void* with a size no caller can own (> 1 MiB): not called");
+            check_cur = false;
+            break;
+          }
+          std::unique_ptr<char[]> dst(new char[size ? size : 1]);
+          memset(dst.get(), 0xA5, size ? size : 1);
           size_t got = SIZE_MAX;
           o = attempt([&] { got = r.read(dst.get(), size, adv); }, name);
           VCHECK(o != RETURNED || got == len, cat(wraps(c, size) ? "wrap-clamp:" : "clamp:", name), "read(void*) returned ", got, ", the in-range prefix has ", len, ctxt());
@@ -522,11 +535,12 @@ static void apply_op(State& st, uint64_t acc, uint64_t a, uint64_t b, size_t opi
         bool threw = false;
         try {
           r.truncate(size);
-        } catch (const std::invalid_argument&) {
+        } catch (const std::exception&) {
+          // (which exception class reports an attempt to extend is not part of the statement)
           threw = true;
         }
         if (size > n) {
-          VCHECK(threw, "truncate-extends", "truncate(", size, ") on ", n, " bytes did not throw invalid_argument", ctxt());
+          VCHECK(threw, "truncate-extends", "truncate(", size, ") on ", n, " bytes did not throw", ctxt());
         } else {
           VCHECK(!threw, "truncate-throws", "truncate(", size, ") on ", n, " bytes threw", ctxt());
           st.n = size;
